@@ -11,7 +11,7 @@ PROP = dict(
                     "order, names, values and parent/prev links are compared.  Exploration, not proof."),
         level_note=("trusts the renderer in harness/c09_readback.c, i.e. its reading of the doc comments of mpt_parse_format_pre/_enc/_sep, "
                     "mpt_parse_format and of examples/core/*.txt, *.lay, mpt.conf; gcc ASan/UBSan"),
-        legs=[dict(name="c09_readback", memcheck=600, src=["c09_readback.c"], libs=["mptcore"], batch=512,
+        legs=[dict(name="c09_readback", memcheck=600, src=["c09_readback.c", "c09_tree.c"], libs=["mptcore"], batch=512,
                    floors={"mpt_parse_node": 450000, "style:prefix": 70000, "style:enclosed": 35000, "style:separated": 35000,
                            "monitor:trees-equal:canonical": 150000, "monitor:trees-equal:compact": 150000,
                            "monitor:trees-equal:noisy": 150000, "monitor:values-compared": 2000000,
@@ -19,7 +19,16 @@ PROP = dict(
                            "tree:with-value-250..254": 15000, "tree:with-value-255..260": 15000, "tree:with-value-65530..65540": 3000,
                            "tree:with-name-250..260": 10000, "tree:comment-char-inside-plain-value": 10000,
                            "decoration:comments": 300000, "decoration:blank-lines": 300000, "decoration:trailing-comments": 50000,
-                           "decoration:crlf": 50000})],
+                           "decoration:crlf": 50000}),
+              dict(name="c09_cxx", src=["c09_cxx.cpp", "c09_tree.c"], libs=["mpt++", "mptio", "mptplot", "mptcore"], batch=512, lsan=True,
+                   floors={"parser::read": 150000, "parser::open": 70000, "config_parser::reset": 60000,
+                           "monitor:trees-equal:first-read": 60000, "monitor:trees-equal:after-reset": 60000,
+                           "monitor:trees-equal:after-reopen": 15000, "state:read-into-used-node": 20000,
+                           "style:prefix": 25000, "style:enclosed": 12000, "style:separated": 12000,
+                           "text:canonical": 15000, "text:compact": 15000, "text:noisy": 15000,
+                           "monitor:values-compared": 1500000, "monitor:names-compared": 1500000,
+                           "tree:depth>=3": 5000, "tree:with-value-250..260": 10000, "tree:with-value-65530..65540": 1000,
+                           "tree:last-top-level-element-is-option": 15000, "flags:config_parser-defaults": 4000})],
         rule=("case = (format string, section/option name flag sets, generated tree of sections, options and anonymous data); the tree is "
               "rendered canonically, compactly and with random decoration and each text is parsed into an empty root; non-trivial = "
               "the tree has at least 3 nodes and (except for the flat separated style) at least one section; distinct = 64-bit hash "
